@@ -1,6 +1,7 @@
 package world
 
 import (
+	"errors"
 	"runtime"
 	"context"
 	"encoding/binary"
@@ -37,6 +38,9 @@ type CrashKV struct {
 	// writes go to disk lets other goroutines run in between): the loops that were just signalled get to run
 	// between any two durable writes. No virtual time passes, so quiescence points are unaffected.
 	Yield int
+	// failIn: after failIn-1 more writes, the next write is refused with an error (and not applied): a
+	// datastore that reports a write failure (disk full, I/O error) instead of dying; one shot
+	failIn int
 	// pause: after pauseIn more writes have been applied, the writer blocks until Release
 	pauseIn int
 	pauseCh chan struct{}
@@ -77,6 +81,12 @@ func NewCrashKV(tr *Tracer, node string) *CrashKV {
 var _ ds.Batching = (*CrashKV)(nil)
 
 // Arm allows k more writes, then crashes.
+// FailWrite makes the k-th next write (1 = the next one) return an error without being applied.
+func (c *CrashKV) FailWrite(k int) { c.mu.Lock(); c.failIn = k; c.mu.Unlock() }
+
+// ErrInjectedWrite is what a refused write returns.
+var ErrInjectedWrite = errors.New("crashkv: injected write failure")
+
 func (c *CrashKV) Arm(k int) { c.mu.Lock(); c.fuse = k; c.blown = false; c.mu.Unlock() }
 func (c *CrashKV) Disarm()   { c.mu.Lock(); c.fuse = -1; c.blown = false; c.mu.Unlock() }
 func (c *CrashKV) Blown() bool {
@@ -128,11 +138,21 @@ func (c *CrashKV) gate() {
 	c.writes++
 }
 
-func (c *CrashKV) apply(ops []kvop, batch bool) {
+func (c *CrashKV) apply(ops []kvop, batch bool) error {
 	for i := 0; i < c.Yield; i++ {
 		runtime.Gosched()
 	}
 	c.mu.Lock()
+	if c.failIn > 0 {
+		c.failIn--
+		if c.failIn == 0 {
+			c.mu.Unlock()
+			if c.tr != nil && !c.Quiet {
+				c.tr.Emit("KVFail", F{"node": c.node})
+			}
+			return ErrInjectedWrite
+		}
+	}
 	func() {
 		defer func() {
 			if r := recover(); r != nil {
@@ -170,16 +190,15 @@ func (c *CrashKV) apply(ops []kvop, batch bool) {
 	if wait != nil {
 		<-wait
 	}
+	return nil
 }
 
 func (c *CrashKV) Put(_ context.Context, key ds.Key, value []byte) error {
-	c.apply([]kvop{{key: key.String(), val: value}}, false)
-	return nil
+	return c.apply([]kvop{{key: key.String(), val: value}}, false)
 }
 
 func (c *CrashKV) Delete(_ context.Context, key ds.Key) error {
-	c.apply([]kvop{{del: true, key: key.String()}}, false)
-	return nil
+	return c.apply([]kvop{{del: true, key: key.String()}}, false)
 }
 
 func (c *CrashKV) Get(_ context.Context, key ds.Key) ([]byte, error) {
@@ -251,8 +270,7 @@ func (b *crashBatch) Delete(_ context.Context, key ds.Key) error {
 func (b *crashBatch) Commit(context.Context) error {
 	ops := b.ops
 	b.ops = nil
-	b.c.apply(ops, true)
-	return nil
+	return b.c.apply(ops, true)
 }
 
 // summarize decodes a durable write into the abstract vocabulary of the specifications.
